@@ -194,6 +194,30 @@ def rule_filter(ctx, rep, rid):
         bad = [l for l in lds if l.d["order"] not in ("acquire", "seq_cst")]
         rep.check(not bad and lds, rid, name + ".next-consume", "every ->next load inside the traversal loop is an acquire/consume load (%d)" % len(lds),
                   "traversal loads ->next without consume ordering", [b.where() for b in bad[:2]])
+        # the walk ends only for one of the three documented reasons: end of list, a strictly greater reverse hash (order stop),
+        # or a live matching node; in particular meeting a bucket node (or a removed node) is *not* an end - during a shrink the
+        # retired bucket nodes stay linked in the middle of their parent's chain for a whole grace period, and during a grow the
+        # new ones are linked before the size is published
+        comp = f.sccs()[0] if f.sccs() else set()
+        for b_ in sorted(comp):
+            t_ = f.blocks[b_].insts[-1]
+            for s_ in f.blocks[b_].succ:
+                if s_ in comp:
+                    continue
+                if f.blocks[s_].insts and f.blocks[s_].insts[-1].op == "unreachable" or any(i.op == "call" and i.d.get("noreturn") for i in f.blocks[s_].insts):
+                    continue        # assertion failure
+                lv = []
+                if t_.op == "br" and len(t_.d["succ"]) == 2:
+                    e_ = ir.expr(f, t_.args[0], 8)
+                    pat.leaf_atoms(e_ if e_[0] in ("icmp", "bin", "select") else ("icmp", "ne", e_, ("c", 0)), s_ == t_.d["succ"][0], lv)
+                lv += pat.dom_leaf_atoms(f, t_) if not lv else []
+                is_end = any(a[0] == "eq" and a[2] == ("c", 0) and a[1][0] == "bin" and a[1][1] == "and" and a[1][3] == ("c", ~B.MASK) for a in lv)
+                stop = any(a[0] == "ugt" and a[1][0] == "load" and a[1][1].endswith(RH) for a in lv)
+                found = any(a[0] == "ne" and a[2] == ("c", 0) and a[1][0] == "icall" for a in lv) or \
+                    (name == "cds_lfht_next" and any(a[0] == "eq" and a[2] == ("c", 0) and a[1][0] == "bin" and a[1][3] == ("c", B.REMOVED) for a in lv))
+                rep.check(is_end or stop or found, rid, "%s.exit@B%d" % (name, b_), "the walk is left only at the end of the list, past the searched reverse hash, or with a live matching node",
+                          "%s leaves its walk on %s: not one of {end of list, greater reverse hash, live match} - e.g. stopping at a bucket node makes a lookup that overlaps "
+                          "a grow/shrink miss resident nodes of the child bucket" % (name, [ir.atom_str(a) for a in lv][:3]), [t_.where()])
         # order stop: strictly greater reverse hash ends the search (lookup, next_duplicate)
         if name != "cds_lfht_next":
             stops = pat.branch_edges_on(f, lambda a: a[0] in ("ugt", "uge") and a[1][0] == "load" and a[1][1].endswith(RH))
@@ -679,6 +703,20 @@ def rule_emptywalk(ctx, rep, rid):
             targets = pat.calls(f, "cds_lfht_free_bucket_table") + pat.loads(f, "cds_lfht.size")
         else:
             targets = None
+            # this walk runs concurrently with a pending resize (destroy of an AUTO_RESIZE table): it is a read-side critical
+            # section of the table's flavor unless the caller already is in one - read_lock()/read_unlock(), not merely
+            # thread_online()/thread_offline() (which make a reader only under QSBR)
+            rl = flavor_icalls(f, "read_lock")
+            ru = flavor_icalls(f, "read_unlock")
+            ongoing = flavor_icalls(f, "read_ongoing")
+            pat.require(ongoing, "cds_lfht_is_empty: read_ongoing() test")
+            was_on = [(t.blk.id, s_) for t, s_, a in pat.branch_edges_on(f, lambda a: a[0] == "ne" and a[2] == ("c", 0) and ir.expr_contains(a[1], lambda z: z[0] == "icall" and z[1] == ongoing[0].id))]
+            if not rl or not ru:
+                rep.bad(rid, "is_empty.read-side", "cds_lfht_is_empty walks the bucket chain without entering a read-side critical section (no flavor->read_lock()): a shrink running on the "
+                        "resize worker does not wait for it and frees bucket nodes under the walk", [walk[0].where()])
+            else:
+                rep.must_take_edge(rid, "is_empty.read-side", f, [f.entry()], walk, was_on, include_start=True, avoid=lambda i: i in rl,
+                                   what="the walk is preceded by flavor->read_lock() unless the caller already was a reader")
         for L in walk:
             def about_L(e):
                 if e[0] == "load":
